@@ -442,8 +442,9 @@ def file_check(case):
         try:
             sm0 = _run_extract(fbin, out, spikes, max_wf, chunk, None, seed=3)
             ntr += 1
-            nchunks = sm0.ntasks if sm0.ntasks else 1          # not dispatched through joblib: one natural-order execution, results compared only
-            if not sm0.ntasks:
+            # None: not dispatched through joblib (one natural-order execution, results compared only); 0: joblib was handed no task at all (the only schedule is the empty one)
+            nchunks = sm0.ntasks if sm0.ntasks is not None else 1
+            if sm0.ntasks is None:
                 mode = "black-box (fan-out not through joblib)"
         except HarnessError:
             raise
